@@ -2,6 +2,7 @@
   C14 — Ordered-channel timeouts close the channel for further packet flow.
 -/
 import IbcVerif.Lemmas.ChainOk2
+import IbcVerif.Lemmas.ChainExamples
 namespace IbcVerif.C14
 open IbcVerif IbcVerif.Chain
 
@@ -99,5 +100,11 @@ theorem timeout_ignores_channel_state (s : ChainState) (env : Env) (p : PacketV1
   all_goals first | rfl | simp_all [Except.toBool]
 
 example : Inv Chain.init := Inv.init
+
+/-- non-vacuity: a state with a CLOSED ORDERED end, on which sends and acknowledgements are rejected
+    with the channel-state error -/
+example : Ex.sClosed.chan.get ("mock", "channel-0") = some Ex.chClosedOrdered ∧ Ex.chClosedOrdered.state = .closed := by decide
+example : (step Ex.sClosed ⟨Ex.envOK, .sendV1 "mock" "channel-0" 1 100 0 "01"⟩).2 = .err eChanState := by decide
+example : (step Ex.sClosed ⟨Ex.envOK, .ackV1 Ex.pkOut "aa" Ex.appOK⟩).2 = .err eChanState := by decide
 
 end IbcVerif.C14
